@@ -475,7 +475,16 @@ pub fn run(session: &Session) -> i32 {
     // outside as a constant, as a run-time value, as a value of another type or not at all: one statement
     // per input, two per input, and the whole as one input
     {
-        let constructs: [(&str, &[&str]); 11] = [
+        let constructs: [(&str, &[&str]); 18] = [
+            // what is called or pulled from has a local of its own spelled like the outer name, and what
+            // runs next to it (a loop body, a mapper, a predicate, the rest of the expression) reads the outer one
+            ("c := mut 0; it := () -> (bool, int) { v := *c; c += 1; return (v < 3, v); }; n := mut 0; for x in it { n += v + x; };", &["c", "it", "n"]),
+            ("c := mut 0; it := () -> (bool, int) { v := *c; c += 1; return (v < 3, v); }; n := it $ 0 (a: int, x: int) -> int { return a + x + v; };", &["c", "it", "n"]),
+            ("c := mut 0; it := () -> (bool, int) { v := *c; c += 1; return (v < 3, v); }; n := it @ (x: int) -> int { return x + v; } $];", &["c", "it", "n"]),
+            ("c := mut 0; it := () -> (bool, int) { v := *c; c += 1; return (v < 3, v); }; n := it ? (x: int) -> bool { return x < v; } $];", &["c", "it", "n"]),
+            ("c := mut 0; step := () -> int|string { v := *c; c += 1; if v < 3 { return v; } return \"end\"; }; n := mut 0; while x: int = step() { n += v + x; };", &["c", "step", "n"]),
+            ("h := () -> int { v := 5; return v; }; n := h() + v + h();", &["h", "n"]),
+            ("c := mut 0; it := () -> (bool, int) { v := *c; c += 1; return (v < 3, v); }; n := mut 0; for x in it { for y in [1]~ { n += v + y; }; };", &["c", "it", "n"]),
             ("n := match next() { v: int => v + 2, => 0, };", &["n"]),
             ("n := if v: int = next() { v + 2 } else { 0 };", &["n"]),
             ("n := mut 0; k := mut 0; while v: int = src(k) { n += v; k += 1; };", &["n", "k"]),
